@@ -92,7 +92,8 @@ def build(features):
     if "input" in f or "oneof" in f:
         types.append(gql.inp("Zin", [("flag", "Boolean")]))
         types.append(gql.inp("Filter", [("text", "String"), ("and", "Filter"), ("many", "[Filter!]"), ("z", "Zin!"),
-                                        FieldDef("n", "Int", default="3")]))
+                                        FieldDef("n", "Int", default="3"), FieldDef("m", "Int!", default="4"),
+                                        FieldDef("ms", "[Int!]!", default="[1, 2]"), FieldDef("zd", "Zin!", default="{flag: true}")]))
         args = [("filter", "Filter")]
         if "oneof" in f:
             types.append(gql.inp("Pick", [("byId", "ID"), ("byZin", "Zin")], one_of=True))
